@@ -26,10 +26,10 @@ use midnight_circuits::{
     },
     hash::poseidon::{PoseidonChip, PoseidonConfig, NB_POSEIDON_ADVICE_COLS, NB_POSEIDON_FIXED_COLS},
     instructions::{AssignmentInstructions, PublicInputInstructions},
-    types::{ComposableChip, Instantiable},
+    types::{ComposableChip, InnerValue, Instantiable},
     verifier::{
         fixed_bases,
-        verif_hooks::{transcript_log_start, transcript_log_take, TranscriptEvent},
+        verif_hooks::{arith_log_start, arith_log_take, transcript_log_start, transcript_log_take, TranscriptEvent},
         Accumulator, AssignedAccumulator, AssignedVk, VerifierGadget,
     },
 };
@@ -180,6 +180,13 @@ impl Circuit<F> for LightVerifierCircuit {
         let inst_refs: Vec<&[AssignedNative<F>]> = instances.iter().map(|c| &c[..]).collect();
 
         let acc = verifier.prepare(&mut layouter, &vk, &committed, &inst_refs, self.proof.clone())?;
+        {
+            // the value of the accumulator as the gadget itself serialises it (no side effect for the
+            // fake curve chip: `as_public_input` returns the pieces)
+            let cells = PublicInputInstructions::<F, AssignedAccumulator<Light>>::as_public_input(&verifier, &mut layouter, &acc)?;
+            let vals: Value<Vec<F>> = Value::from_iter(cells.iter().map(|c| c.value().copied()));
+            vals.map(crate::verify::stash_light_pi);
+        }
         verifier.constrain_as_public_input(&mut layouter, &acc)?;
 
         scalar_chip.load(&mut layouter)?;
@@ -279,6 +286,93 @@ where
     }
 }
 
+/// Off-circuit `prepare` through the value-recording transcript, with the identity log of the
+/// off-circuit vanishing argument: dual MSM, recorded stream, identity fold.
+#[allow(clippy::type_complexity)]
+pub fn off_circuit_values<H: TranscriptHash>(
+    inner: &Inner,
+    insts: &[Vec<F>],
+    commitments: &[C],
+    proof: &[u8],
+) -> Result<(DualMSM<Bls12>, Vec<(char, String)>, Option<midnight_proofs::plonk::verif_hooks::IdentityFold>), String>
+where
+    F: Hashable<H> + Sampleable<H>,
+    C: Hashable<H>,
+    CircuitTranscript<H>: Clone,
+{
+    use midnight_proofs::plonk::verif_hooks::{clear_identity_log, take_identity_log};
+    let nc = inner.fp.n_committed;
+    let plain: Vec<&[F]> = insts[nc..].iter().map(|c| &c[..]).collect();
+    clear_identity_log();
+    crate::verify::take_stream();
+    let mut vt = crate::verify::ValTranscript::<H>::init_from_bytes(proof);
+    let r = mzkh::catch(|| prepare::<F, Scheme, _>(inner.vk(), &[commitments], &[&plain[..]], &mut vt).map_err(|e| format!("{e:?}")));
+    let stream = crate::verify::take_stream();
+    let mut folds = take_identity_log();
+    match r {
+        Ok(Ok(g)) => Ok((g, stream, if folds.len() == 1 { folds.pop() } else { None })),
+        Ok(Err(e)) => Err(e),
+        Err(p) => Err(format!("panic: {p}")),
+    }
+}
+
+/// The `gadget-verify` correspondence line of one `MockProver` run of a verifier circuit (whose
+/// arithmetic log and accumulator value have just been recorded), and the in-circuit vs
+/// off-circuit oracle.
+#[allow(clippy::too_many_arguments)]
+pub fn verify_case<H: TranscriptHash, S: midnight_circuits::verifier::SelfEmulation<F = F, C = C, Engine = Bls12>>(
+    ctx: &mut Ctx,
+    kind: &str,
+    key: &str,
+    desc: &serde_json::Value,
+    inner: &Inner,
+    insts: &[Vec<F>],
+    commitments: &[C],
+    proof: &[u8],
+) where
+    F: Hashable<H> + Sampleable<H>,
+    C: Hashable<H>,
+    CircuitTranscript<H>: Clone,
+{
+    let arith = crate::verify::take_arith();
+    let in_acc = crate::verify::take_acc();
+    let light_pi = crate::verify::take_light_pi();
+    let (g, stream, fold) = match off_circuit_values::<H>(inner, insts, commitments, proof) {
+        Ok(x) => x,
+        Err(_) => {
+            ctx.count(&format!("{kind}:off-circuit-error"));
+            return;
+        }
+    };
+    let fb = fixed_bases::<S>("inner_vk", inner.vk());
+    let off_acc = crate::verify::acc_view::<S>(&Accumulator::<S>::from_dual_msm(g, "inner_vk", &fb));
+    let in_acc = match in_acc.or_else(|| light_pi.and_then(|v| crate::verify::acc_of_light_pi(&v, &off_acc))) {
+        Some(a) => a,
+        None => {
+            ctx.oracle_fail(&format!("verify-no-acc:{key}"), "the verifier circuit returned no accumulator value (or one of another shape than the off-circuit accumulator)", json!({"case": desc}));
+            return;
+        }
+    };
+    let ids_cs = crate::verify::ids_cs_string(inner.vk(), &inner.shape);
+    let nc = inner.fp.n_committed;
+    match crate::verify::build_lines::<H>(&ids_cs, nc, &insts[nc..], commitments, &stream, fold.as_ref(), &off_acc, &arith, &in_acc, "inner_vk") {
+        Ok(l) => {
+            ctx.case(kind, true, &l.op, &l.ans);
+            ctx.count_n(&format!("{kind}:identity-values"), crate::verify::entry(&arith, "ids").map_or(0, |v| v.len()) as u64);
+            ctx.count_n(&format!("{kind}:rhs-terms"), in_acc.rhs.terms.len() as u64);
+            ctx.count_n(&format!("{kind}:rhs-fixed"), in_acc.rhs.fixed.len() as u64);
+            if !l.diffs.is_empty() {
+                ctx.oracle_fail(
+                    &format!("in-vs-off:{key}"),
+                    "the in-circuit verifier and the off-circuit verifier compute different values on the same proof",
+                    json!({"case": desc, "kind": kind, "differences": l.diffs}),
+                );
+            }
+        }
+        Err(e) => ctx.oracle_fail(&format!("verify-log:{key}"), "incomplete in-circuit arithmetic log", json!({"case": desc, "error": e})),
+    }
+}
+
 /// The instance vector of the light verifier circuit for a claimed accumulator.
 pub fn light_instance(inner: &Inner, insts: &[Vec<F>], commitments: &[C], acc: &Accumulator<Light>) -> Vec<F> {
     let mut pi = AssignedVk::<Light>::as_public_input(inner.vk());
@@ -304,8 +398,10 @@ pub fn light_circuit(inner: &Inner, insts: &[Vec<F>], commitments: &[C], proof: 
 /// `MockProver::run` + `verify`; returns (satisfied, in-circuit transcript log) or an error text.
 pub fn mock<Ci: Circuit<F>>(k: u32, circuit: &Ci, pi: Vec<F>) -> Result<(bool, Vec<TranscriptEvent>), String> {
     transcript_log_start();
+    arith_log_start();
     let r = mzkh::catch(|| MockProver::run(k, circuit, vec![vec![], pi]).map_err(|e| format!("{e:?}")));
     let log = transcript_log_take();
+    crate::verify::set_arith(arith_log_take());
     match r {
         Ok(Ok(p)) => {
             let ok = mzkh::catch(|| p.verify().is_ok()).map_err(|e| format!("verify panic: {e}"))?;
@@ -372,6 +468,13 @@ pub fn run_light(ctx: &mut Ctx, setup: &mut Setup, fp: &FamParams, extra_k: u32,
                 ctx.oracle_fail("gadget-fails:light:unqueried-advice-column", "light back-end: the verifier circuit panics (FakeCurveChip::finalize) for an inner circuit with an advice column that is never queried", json!({"case": desc, "error": e, "shape": inner.shape}));
                 return;
             }
+            // Limitation of the in-circuit verifier (findings/C20.json): `verify_algebraic_constraints` takes
+            // `.min().unwrap()` / `.max().unwrap()` over the instance queries, so an inner constraint system
+            // without any instance query panics, while the off-circuit verifier accepts such proofs.
+            if cs.instance_queries().is_empty() && e.as_deref().unwrap_or("").contains("unwrap()") {
+                ctx.oracle_fail("gadget-fails:no-instance-query", "the verifier circuit panics (Option::unwrap on None) for an inner circuit without instance queries, which the off-circuit verifier accepts", json!({"case": desc, "error": e, "shape": inner.shape}));
+                return;
+            }
             ctx.oracle_fail(&format!("gadget-fails:{key}"), "the verifier circuit cannot be synthesised on an honest inner proof", json!({"case": desc, "error": e, "shape": inner.shape}));
             return;
         }
@@ -392,6 +495,9 @@ pub fn run_light(ctx: &mut Ctx, setup: &mut Setup, fp: &FamParams, extra_k: u32,
         }
         Err(e) => ctx.oracle_fail("gadget-log", "malformed in-circuit transcript log", json!({"case": desc, "error": e})),
     }
+    // (2a) arithmetic of the gadget: in-circuit log vs off-circuit log vs Lean model (also when the
+    // circuit is unsatisfied: the line then says where the two verifiers part)
+    verify_case::<H, Light>(ctx, "gadget-verify", &key, &desc, &inner, &inner.insts, &inner.commitments, &inner.proof);
     // (2) same accumulator
     if !ok {
         ctx.oracle_fail(&format!("acc-differs:{key}"), "verifier circuit unsatisfied with the off-circuit accumulator of an honest proof", json!({"case": desc, "shape": inner.shape}));
@@ -456,7 +562,10 @@ pub fn run_light(ctx: &mut Ctx, setup: &mut Setup, fp: &FamParams, extra_k: u32,
                 let acc2 = acc_of(&inner, &g2);
                 let pi2 = light_instance(&inner, &insts2, &inner.commitments, &acc2);
                 match mock(outer_k, &circuit2, pi2) {
-                    Ok((true, _)) => ctx.count("light:corrupt:same-invalid-acc"),
+                    Ok((true, _)) => {
+                        ctx.count("light:corrupt:same-invalid-acc");
+                        verify_case::<H, Light>(ctx, "gadget-verify-corrupt", &key, &desc, &inner, &insts2, &inner.commitments, &proof2);
+                    }
                     other => ctx.oracle_fail(&format!("acc-differs-corrupt:{what}"), "in-circuit and off-circuit accumulators differ on a corrupted inner proof", json!({"case": desc, "what": what, "result": format!("{other:?}")})),
                 }
                 // claimed: the honest accumulator (with the instance the circuit is given)
@@ -627,6 +736,7 @@ impl Circuit<F> for ForeignVerifierCircuit {
         let inst_refs: Vec<&[AssignedNative<F>]> = instances.iter().map(|c| &c[..]).collect();
 
         let mut acc = verifier.prepare(&mut layouter, &vk, &committed, &inst_refs, self.proof.clone())?;
+        acc.value().map(|a| crate::verify::stash_acc(Some(crate::verify::acc_view::<Foreign>(&a))));
         acc.collapse(&mut layouter, &curve_chip, &native_gadget)?;
         verifier.constrain_as_public_input(&mut layouter, &acc)?;
         core_decomp_chip.load(&mut layouter)
@@ -698,6 +808,7 @@ pub fn run_foreign(ctx: &mut Ctx, setup: &mut Setup, fp: &FamParams, extra_k: u3
         }
         Err(e) => ctx.oracle_fail("gadget-log", "malformed in-circuit transcript log", json!({"case": desc, "error": e})),
     }
+    verify_case::<H, Foreign>(ctx, "gadget-verify-foreign", &key, &desc, &inner, &inner.insts, &inner.commitments, &inner.proof);
     if !ok {
         ctx.oracle_fail(&format!("acc-differs:{key}"), "verifier circuit unsatisfied with the off-circuit accumulator of an honest proof", json!({"case": desc, "shape": inner.shape}));
         return;
